@@ -362,7 +362,7 @@ class Interp:
             return v
         if z3.is_expr(v) and z3.is_bool(v):
             return self.ps.decide(v, label)
-        if v is NAN:
+        if v is NAN or v is INF:
             return True
         if isinstance(v, (int, float, Fraction)):
             return v != 0
@@ -1615,6 +1615,7 @@ class Interp:
             getattr(v, "pure_compare", False)
             or v is None
             or v is NAN
+            or v is INF
             or isinstance(v, (bool, int, float, Fraction, str, Num, IdStr))
             or (z3.is_expr(v) and z3.is_bool(v))
         )
@@ -1676,7 +1677,7 @@ class Interp:
             return v
         if z3.is_expr(v) and z3.is_bool(v):
             return v
-        if v is NAN:
+        if v is NAN or v is INF:
             return True
         if isinstance(v, (int, float, Fraction)):
             return v != 0
@@ -1895,6 +1896,8 @@ class Interp:
             (v,) = args
             if v is NAN:
                 return NAN
+            if v is INF:
+                return INF
             if isinstance(v, Num):
                 return Num(z3.If(v.v >= 0, v.v, -v.v), v.tag)
             return abs(v)
@@ -2088,7 +2091,7 @@ def hash_str(s: str) -> int:
 
 
 def _isnum(x):
-    return (isinstance(x, (int, float, Fraction, Num)) and not isinstance(x, bool)) or x is NAN or isinstance(x, bool)
+    return (isinstance(x, (int, float, Fraction, Num)) and not isinstance(x, bool)) or x is NAN or x is INF or isinstance(x, bool)
 
 
 def _isstr(x):
@@ -2158,7 +2161,7 @@ def _isinstance_builtin(I, v, name):
             return b_and(b_not(f), b_not(n))
         return False
     if name == "float":
-        if isinstance(v, float) or v is NAN:
+        if isinstance(v, float) or v is NAN or v is INF:
             return True
         if isinstance(v, Num):
             return v.tag[0]  # np.float64 subclasses float
